@@ -622,13 +622,35 @@ func tryReplay(eng *Engine, rep *obReport, dir string) replayResult {
 	if !b.ok {
 		return replayResult{false, "not attempted (" + b.why + ")"}
 	}
-	// the call
+	// the call: first with every translatable clause, then (if that does not build) with the failing clause only
+	res := runReplay(eng, rep, dir, b, fn, args, "")
+	if !res.ran && ob.Kind == "post" && ob.Goal != "" {
+		res2 := runReplay(eng, rep, dir, b, fn, args, ob.Goal)
+		if res2.ran {
+			res = res2
+		}
+	}
+	return replayResult{res.confirmed, res.text}
+}
+
+type replayRun struct {
+	ran       bool
+	confirmed bool
+	text      string
+}
+
+func runReplay(eng *Engine, rep *obReport, dir string, b *replayBuilder, fn *ssa.Function, args []string, onlyClause string) replayRun {
+	ob := rep.Ob
+	x := ob.fn
 	ctr := x.contract
 	gg := &goGen{eng: eng, pkg: fn.Pkg.Pkg, specFns: map[string]bool{}}
 	_, resNames := x.paramBindings(fn.Signature, nil, fn, nil)
 	var checks []string
 	var clauseSrc []string
 	for _, en := range append(append([]Clause{}, ctr.Ensures...), ctr.Checks...) {
+		if onlyClause != "" && en.Src != onlyClause {
+			continue
+		}
 		save := *gg
 		gg.fail = ""
 		s := gg.expr(en.E, false)
@@ -739,8 +761,9 @@ func tryReplay(eng *Engine, rep *obReport, dir string) replayResult {
 	if len(lines) == 0 {
 		text += "the replay test did not build or run:\n" + firstLines(o, 12) + "\n"
 	}
-	return replayResult{confirmed, text}
+	return replayRun{len(lines) > 0, confirmed, text}
 }
+
 
 func castNil(e string, t types.Type, pkg *types.Package) string {
 	if e == "nil" {
